@@ -181,6 +181,12 @@ func runC05(r resIface, c *c05case, rng *prng.R, scratch string) {
 		if c.Path == "continue" {
 			askRun, askOff = sc.RunID, sc.StartOffset
 			ds.VerifSetOffset(askOff)
+		} else if c.Index%3 == 1 {
+			// a resumed start whose checkpoint is stale: the syncer asks with an old run id and an offset far beyond what
+			// the source (restarted / failed over) now announces, and is told to resync fully from the announced offset
+			askRun, askOff = "0123456789abcdef0123456789abcdef01234567", sc.StartOffset+500000
+			ds.VerifSetOffset(askOff)
+			r.Count("full_resyncs_answering_a_stale_resume", 1)
 		} else {
 			ds.VerifSetOffset(-1)
 		}
